@@ -19,7 +19,7 @@ from ..dataflow import dataflow_of
 from ..model import AnalysisError, Func, norm_stmt, parent
 from ..paths import PathFinder, describe_path
 from ..terms import Term, contains, show, subterms
-from ..util import calls_in, catching_handler, nodes_in
+from ..util import calls_in, catching_handler, deep_subterms, nodes_in
 
 P = "C14"
 ABORT = "ropt.exceptions.OptimizationAborted"
@@ -650,16 +650,7 @@ def c14_4(ctx: Ctx) -> RuleResult:
         # comparator of the check and the counter
         for g in set(check_funcs) | ({cb} if inline_raises else set()):
             for r_ in _raises_code(ctx, g, "MAX_FUNCTIONS_REACHED"):
-                gcfg = cfg_of(ctx.repo, g)
-                conds = []
-                for n in gcfg.node_containing(r_):
-                    # controlling tests: walk up the AST
-                    cur = parent(r_)
-                    while cur is not None and cur is not g.node:
-                        if isinstance(cur, ast.If):
-                            conds.append(cur.test)
-                        cur = parent(cur)
-                ok, why, counter = _budget_condition(ctx, g, conds)
+                ok, why, counter = _budget_condition(ctx, g, r_)
                 res.add(g, r_, "MAX_FUNCTIONS_REACHED is raised iff max_functions is set and completed >= max_functions", ok, why)
                 if counter is not None:
                     _check_counter(ctx, res, cb, counter)
@@ -667,29 +658,34 @@ def c14_4(ctx: Ctx) -> RuleResult:
     return res
 
 
-def _budget_condition(ctx: Ctx, g: Func, conds: list[ast.AST]):
-    """The controlling condition must contain `counter >= max` (normal form)
-    with max derived from `optimizer.max_functions`."""
-    from ..terms import ends_with_attrs
+def _budget_condition(ctx: Ctx, g: Func, raise_stmt: ast.AST):
+    """The condition under which the raise executes must contain `counter - max >= 0` (any
+    spelling: `counter >= max`, `max - counter <= 0`, `not counter < max`, early return when
+    below ...), max derived from `optimizer.max_functions`, counter an attribute of self."""
+    from ..util import bool_nnf, linear_cmp, nnf_literals, path_condition
 
-    for c in conds:
-        t = ctx.X.at(g, c)
-        for s in subterms(t):
-            if s[0] == "cmp":
-                op, l, r = s[1], s[2], s[3]
-                lmax = contains(l, lambda x: x[0] == "attr" and x[2] == "max_functions")
-                rmax = contains(r, lambda x: x[0] == "attr" and x[2] == "max_functions")
-                if op in ("is", "is not"):
-                    continue
-                if rmax and not lmax:
-                    counter, cop = l, op
-                elif lmax and not rmax:
-                    counter, cop = r, {"<": ">", "<=": ">=", ">": "<", ">=": "<=", "==": "=="}.get(op, op)
-                else:
-                    continue
-                if cop == ">=":
-                    return True, "", counter
-                return False, f"comparator is `counter {cop} max_functions`; the budget requires `>=` (one evaluation too many or too few)", counter
+    pc = path_condition(ctx, g, raise_stmt)
+    if not pc:
+        return False, "no comparison of a counter with optimizer.max_functions controls this raise", None
+    guard = bool_nnf(("bool", "and", tuple(c if p else ("unary", "not", c) for c, p in pc)))
+    conj = [(it[1], it[2]) for it in (guard[1] if guard[0] == "and" else [guard]) if it[0] == "lit"]
+    is_max = lambda x: contains(x, lambda y: y[0] == "attr" and y[2] == "max_functions")  # noqa: E731
+    for atom, pol in conj:
+        lc = linear_cmp(atom, pol)
+        if lc is None:
+            continue
+        coeffs, const, op = lc
+        mx = [a for a in coeffs if is_max(a)]
+        others = [a for a in coeffs if not is_max(a)]
+        if len(mx) != 1 or len(others) != 1:
+            continue
+        counter = others[0]
+        km, kc = coeffs[mx[0]], coeffs[counter]
+        if op == ">=" and kc > 0 and km == -kc and const == 0:
+            return True, "", counter
+        if op == ">=" and kc > 0 and km == -kc:
+            return False, f"the raise happens when `counter - max_functions >= {-const / kc:g}`; the budget requires `counter >= max_functions` (one evaluation too many or too few)", counter
+        return False, f"comparator is `{show(atom, 60)}` ({'taken' if pol else 'negated'}); the budget requires `counter >= max_functions`", counter
     return False, "no comparison of a counter with optimizer.max_functions controls this raise", None
 
 
@@ -718,6 +714,25 @@ def _check_counter(ctx: Ctx, res: RuleResult, cb: Func, counter: Term) -> None:
         if ok:
             # the counted list is built from FunctionResults items only
             ok = contains(t, lambda s: s[0] == "global" and s[1].endswith("FunctionResults"))
+            if not ok and isinstance(n.value, ast.Call) and n.value.args and isinstance(n.value.args[0], ast.Name):
+                # a list filled in a loop: every append happens under isinstance(item, FunctionResults)
+                from ..util import bool_nnf, nnf_literals, path_condition
+
+                lname = n.value.args[0].id
+                apps = [c for c in calls_in(cb) if isinstance(c.func, ast.Attribute) and c.func.attr in ("append", "extend") and isinstance(c.func.value, ast.Name) and c.func.value.id == lname]
+
+                def under_isinstance(c):
+                    st = c
+                    while parent(st) is not None and not isinstance(st, ast.stmt):
+                        st = parent(st)
+                    pc = path_condition(ctx, cb, st)
+                    if not pc:
+                        return False
+                    g_ = bool_nnf(("bool", "and", tuple(x if p else ("unary", "not", x) for x, p in pc)))
+                    conj = [(it[1], it[2]) for it in (g_[1] if g_[0] == "and" else [g_]) if it[0] == "lit"]
+                    return any(p and a[0] == "call" and a[1] == ("builtin", "isinstance") and len(a[2]) == 2 and a[2][1][0] == "global" and a[2][1][1].endswith("FunctionResults") for a, p in conj)
+
+                ok = bool(apps) and all(under_isinstance(c) for c in apps)
             if not ok:
                 detail = "the counted collection is not restricted to FunctionResults"
         else:
@@ -783,7 +798,12 @@ def c14_5(ctx: Ctx) -> RuleResult:
 
 def _derives_too_few(ctx: Ctx, g: Func, r_: ast.Raise) -> bool:
     t = ctx.X.at(g, r_.exc)
-    return any(s[0] == "global" and s[1] == "ropt.enums.OptimizerExitCode.TOO_FEW_REALIZATIONS" for s in ctx.X.closure(t))
+    if any(s[0] == "global" and s[1] == "ropt.enums.OptimizerExitCode.TOO_FEW_REALIZATIONS" for s in ctx.X.closure(t)):
+        return True
+    # the code may be computed by a helper (its return values are followed)
+    args = [a for a in t[2]] + [v for _k, v in t[3]] if t[0] == "call" else [t]
+    return any(s[0] == "global" and s[1] == "ropt.enums.OptimizerExitCode.TOO_FEW_REALIZATIONS"
+               for a in args for _g, s in deep_subterms(ctx, g, a, 3, prune=lambda _f, x: () if x[0] == "param" else None))
 
 
 def _is_calc_result(ctx: Ctx, g: Func, a: Term, calc: Func) -> bool:
